@@ -22,7 +22,7 @@ def universe():
     A2 = pygaps.Adsorbate('pgv_a2')
     M1 = pygaps.Material('pgv_m1', density=2.0, batch='b1', sieve=[0.5, 1.5, 2.5])  # a list-valued property: one row per element
     M1b = pygaps.Material('pgv_m1', density=3.0)
-    M2 = pygaps.Material('pgv_m2')
+    M2 = pygaps.Material('pgv_m2', swelling=0.0)  # a property whose value is zero is a property
     A1c = pygaps.Adsorbate('pgv_a1')  # overwriting with an item that has no properties must remove the old ones
     M1c = pygaps.Material('pgv_m1')
     common = dict(temperature=300, pressure_mode='absolute', pressure_unit='bar', loading_basis='molar', loading_unit='mmol',
@@ -50,8 +50,11 @@ def iso_key(i):
 
 
 def _props(obj):
-    d = dict(obj.to_dict())
-    d.pop('name')
+    # (the properties as the object holds them -- not its own export, which is part of what is being checked)
+    d = dict(getattr(obj, 'properties', None) or {})
+    if hasattr(obj, 'alias'):
+        d['alias'] = list(obj.alias)
+    d.pop('name', None)
     out = {}
     for k, v in d.items():
         out[k] = sorted(str(x) for x in v) if isinstance(v, (list, tuple, set)) else [str(v)]
